@@ -171,7 +171,7 @@ func plansFor(d corpus.Doc, lim c17Limits, r *prng.R) []simio.ReadPlan {
 			ps = append(ps, simio.ReadPlan{Name: "split-sampled", Chunks: []int{r.Intn(n + 1)}})
 		}
 	}
-	if n > 250000 { // very large document: boundary and sampled splits above, a few granularities, nothing else
+	if n > 250000 || d.Name == "ts-verylong" { // very large document: boundary and sampled splits above, a few granularities, nothing else
 		ps = append(ps, simio.ReadPlan{Name: "half", Half: true}, simio.ReadPlan{Name: "mtu", Rest: 4096}, simio.ReadPlan{Name: "mtu", Rest: 4097},
 			simio.ReadPlan{Name: "mtu", Rest: 1023}, simio.ReadPlan{Name: "mtu", Rest: 65536}, simio.ReadPlan{Name: "whole+eof", EOFWithData: true})
 		if n < 400000 {
@@ -333,6 +333,22 @@ func c17Docs(cfg Config, lim c17Limits) ([]corpus.Doc, error) {
 			break
 		}
 	}
+	// long runs of one unusual byte (NUL, VT, space, CR, LF) in the middle of a document: filters and skippers that
+	// legitimately return "nothing yet" are sensitive to how many reads fall inside the run
+	for _, f := range []string{"srt", "vtt", "ssa", "ttml", "stl"} {
+		for _, d := range gen {
+			if d.Format != f || len(d.Data) > 3000 {
+				continue
+			}
+			for _, fill := range []byte{0x00, 0x0b, ' ', '\r', '\n'} {
+				docs = append(docs, corpus.WithRun(d, fill, 150))
+			}
+			break
+		}
+	}
+	// a TTML document with hundreds of cues, a transport stream of more than two 64 KiB blocks
+	docs = append(docs, corpus.LargeTTML(root.Derive("large-ttml", 0), 320))
+	docs = append(docs, corpus.Doc{Name: "ts-verylong", Format: "ts", Data: corpus.FixedTS(4, "very#long", 170), Cues: -1, Gen: true})
 	// a transport stream long enough for cumulative effects (hundreds of packets)
 	docs = append(docs, corpus.Doc{Name: "ts-long", Format: "ts", Data: corpus.FixedTS(1, "long#stream", 30), Cues: -1, Gen: true})
 	// documents with one line longer than the line scanner can buffer: how such a document is treated must not
